@@ -210,6 +210,49 @@ C20 = {
 }
 
 
+# ---------------------------------------------------------------- C15: redirect grammar
+def _c15():
+    keys = ["url", "u", "l", "q", "next", "redirect", "redirect_to", "target", "link", "goto", "redir", "orig", "URL", "Next"]
+    lookalikes = ["curl", "xu", "url2", "nexturl", "ql"]
+    from urllib.parse import quote
+    targets = ["http://b.com/p?x=1", "https://c.org/", "http://", "https://", "//d.net/x", "/local", "/?u=/x", "/r?url=http%3A%2F%2Fe.com", "b.com/p", "ftp://f.com/x",
+               "http://b.com/é", "/a b", ""]
+    out = []
+    hosts = ["http://a.com", "https://www.youtube.com", "a.com", "//a.com", "http://a.com:8080"]
+    for k in keys + lookalikes:
+        for t in targets[:8]:
+            for enc_level in (0, 1):
+                v = t
+                for _ in range(enc_level):
+                    v = quote(v, safe="")
+                out.append("http://a.com/r?%s=%s" % (k, v))
+                out.append("http://a.com/r?x=1&%s=%s&y=2" % (k, v))
+    for t in targets:
+        v = quote(t, safe="")
+        out += ["http://a.com/redirect?q=" + v, "https://www.google.com/url?q=" + v + "&sa=D", "https://www.youtube.com/redirect?q=" + v + "&v=1",
+                "https://www.youtube.com/redirect?event=x&redir_token=y&q=" + v, "http://a.com/p?q=" + v, "http://a.com/p#u=" + v, "http://a.com/p/&u=" + v,
+                "http://u=" + v + "@a.com/", "http://a.com&u=" + v, "http://a&u=" + v, "a.com?u=" + v, "?u=" + v, "u=" + v, "&url=" + v]
+    # nesting 1-4 levels with matching levels of encoding
+    def nest(n, inner="http://z.com/end"):
+        t = inner
+        for i in range(n):
+            t = "http://h%d.com/r?url=%s" % (i, quote(t, safe=""))
+        return t
+    out += [nest(n) for n in range(1, 5)] + [nest(n, "/rel") for n in range(1, 4)]
+    # self-referential / growing shapes
+    out += ["http://a.com/?u=/?u=/", "http://a.com/r?url=%2Fr%3Furl%3D%252Fr", "http://a&u=/b", "http://a.com&url=%2Fx", "http://a.com/?next=/?next=/x", "/?u=/x", "/x?u=/x"]
+    # AMP / Marfeel caches with empty and non-empty tails
+    out += ["https://www-example-com.cdn.ampproject.org/c/s/www.example.com/a.html", "https://cdn.ampproject.org/v/s/example.com/x?amp_js_v=0.1",
+            "https://cdn.ampproject.org/c/", "https://cdn.ampproject.org/c/s/", "http://bc.marfeelcache.com/amp/www.example.com/a", "http://bc.marfeel.com/www.example.com/b?u=/x",
+            "http://bc.marfeel.com/", "https://a.cdn.ampproject.org/c/s/b.cdn.ampproject.org/c/s/c.com/x"]
+    seen = []
+    for s in out:
+        if s not in seen:
+            seen.append(s)
+    return {"urls": [cp(s) for s in seen],
+            "keys": [cp(k) for k in ["redirect_to", "redirect", "target", "redir", "next", "link", "orig", "goto", "url", "l", "u", "q"]]}
+
+
 def main():
     d = os.path.join(ROOT, "spec", "data")
     os.makedirs(d, exist_ok=True)
@@ -221,6 +264,8 @@ def main():
     sys.path.insert(0, "/repo")
     from ural.data import ISO_3166_1_COUNTRIES_ALPHA_2  # data the property is stated over, not logic
     NORM["countries"] = [cp(c.lower()) for c in sorted(ISO_3166_1_COUNTRIES_ALPHA_2)]
+    with open(os.path.join(d, "c15.json"), "w") as f:
+        json.dump(_c15(), f, separators=(",", ":"))
     with open(os.path.join(d, "c20.json"), "w") as f:
         json.dump(C20, f, separators=(",", ":"))
     with open(os.path.join(d, "lrugen.json"), "w") as f:
